@@ -30,7 +30,7 @@ fn plan(rng: &mut impl Rng) -> Vec<(u64, &'static str)> {
     let mut v = Vec::new();
     let n = rng.gen_range(0..4);
     for _ in 0..n {
-        let kind = ["good", "good", "wrongsender", "unknownid", "dup", "late", "late"][rng.gen_range(0..7)];
+        let kind = ["good", "good", "wrongsender", "claims", "unknownid", "dup", "late", "late"][rng.gen_range(0..8)];
         let at = match kind {
             "late" => TIMEOUT_MS + rng.gen_range(100..1500),
             _ => rng.gen_range(10..TIMEOUT_MS - 100),
@@ -113,14 +113,16 @@ async fn seg_rr(seg: u64, rng: &mut rand_chacha::ChaCha8Rng, events: &mut Vec<Va
                 }
                 n += 1;
                 let (inj_id, sender) = match kind {
-                    "wrongsender" => (id.clone(), other.clone()),
+                    "wrongsender" | "claims" => (id.clone(), other.clone()),
                     "unknownid" => (format!("{}-x", id), peer.clone()),
                     _ => (id.clone(), peer.clone()),
                 };
+                // "claims": arrives on the other peer's connection, but the frame names the contacted peer as its origin
+                let claimed_from = if kind == "claims" { peer.clone() } else { sender.clone() };
                 let val = (c as i64 + 1) * 1000 + n; // payload: first byte c+1, length n
                 let payload = vec![(c + 1) as u8; n as usize];
                 let env = saorsa_core::network::verif_encode_rr(&inj_id, true, payload);
-                let frame = saorsa_core::network::verif_encode_wire("/rr/verif", env, &sender, now_secs());
+                let frame = saorsa_core::network::verif_encode_wire("/rr/verif", env, &claimed_from, now_secs());
                 log2.lock().expect("log").push((ms(start), json!({"ev":"Inject","id":inj_id,"sender":sender,"val":val,"kind":kind})));
                 let _ = a2.verif_inject(&sender, frame).await;
             }
@@ -254,24 +256,26 @@ async fn seg_dht(seg: u64, rng: &mut rand_chacha::ChaCha8Rng, events: &mut Vec<V
                 }
                 n += 1;
                 let (inj_id, sender) = match kind {
-                    "wrongsender" => (id.clone(), other.clone()),
+                    "wrongsender" | "claims" => (id.clone(), other.clone()),
                     "unknownid" => (format!("{}-x", id), peer.clone()),
                     _ => (id.clone(), peer.clone()),
                 };
+                // "claims": arrives on the other peer's connection, payload and frame name the contacted peer as the source
+                let claimed = if kind == "claims" { peer.clone() } else { sender.clone() };
                 let val = (c as i64 + 1) * 1000 + n;
                 let resp = DhtNetworkMessage {
                     message_id: inj_id.clone(),
-                    source: sender.clone(),
+                    source: claimed.clone(),
                     target: Some(me2.clone()),
                     message_type: DhtMessageType::Response,
                     payload: DhtNetworkOperation::Ping,
-                    result: Some(DhtNetworkResult::PongReceived { responder: sender.clone(), latency: Duration::from_millis(val as u64) }),
+                    result: Some(DhtNetworkResult::PongReceived { responder: claimed.clone(), latency: Duration::from_millis(val as u64) }),
                     timestamp: now_secs(),
                     ttl: 9,
                     hop_count: 1,
                 };
                 let data = postcard::to_stdvec(&resp).unwrap_or_default();
-                let frame = saorsa_core::network::verif_encode_wire("/dht/1.0.0", data, &sender, now_secs());
+                let frame = saorsa_core::network::verif_encode_wire("/dht/1.0.0", data, &claimed, now_secs());
                 log2.lock().expect("log").push((ms(start), json!({"ev":"Inject","id":inj_id,"sender":sender,"val":val,"kind":kind})));
                 let _ = t.verif_inject(&sender, frame).await;
             }
@@ -372,7 +376,7 @@ async fn seg_core(rng: &mut rand_chacha::ChaCha8Rng, events: &mut Vec<Value>) {
         log.lock().expect("log").push((ms(start), json!({"ev":"Sent","t":q,"id":w.id.clone(),"peer":peer.clone()})));
         q += 1;
         for (off, kind) in plan(rng) {
-            let kind = if kind == "wrongsender" { "good" } else { kind }; // the API has no sender: not expressible
+            let kind = if kind == "wrongsender" || kind == "claims" { "good" } else { kind }; // the API has no sender: not expressible
             let late = kind == "late";
             let target = if late { 5000 + off } else { off * 2 };
             let now = ms(start);
